@@ -123,7 +123,15 @@ def fresh_constraints(name):
 def check_parse_sound(name, grammar, word, stats):
     """C04 contract on one (spec, word); returns list of problems"""
     problems = []
-    res, timed_out = with_budget(lambda: list(grammar.parse_forest(word)))
+
+    def forest():
+        try:
+            return list(grammar.parse_forest(word))
+        except Exception:          # noqa: BLE001  (a parser crash yields no tree: nothing unsound is handed out; C05 / C06 judge it)
+            stats["raised"] = stats.get("raised", 0) + 1
+            return []
+
+    res, timed_out = with_budget(forest)
     if timed_out:
         stats["timeouts"] += 1
         return problems
@@ -210,10 +218,18 @@ def check_roundtrip(name, grammar, tree, stats):
         word = serialise(tree)
     except Exception as e:
         return [f"generated tree cannot be serialised: {type(e).__name__}: {e}"]
-    res, timed_out = with_budget(lambda: list(grammar.parse_forest(word)))
+    def forest():
+        try:
+            return list(grammar.parse_forest(word))
+        except Exception as e:          # noqa: BLE001  (a crash of the parser on a generated word)
+            return e
+
+    res, timed_out = with_budget(forest)
     if timed_out:
         stats["timeouts"] += 1
         return []
+    if isinstance(res, Exception):
+        return [f"generated word {word!r} makes parse raise {type(res).__name__}"], word
     same = [u for u in res if serialise(u) == word]
     if not same:
         problems.append(f"generated word {word!r} is not parsed back ({len(res)} trees, none with the same serialisation)")
@@ -275,11 +291,19 @@ def run_spec(pid, name, tier, rnd, stats, samples):
             for w in inside:
                 stats["evaluations"] += 1
                 stats["distinct"].add((name, repr(w)))
-                res, timed_out = with_budget(lambda: next(iter(grammar.parse_forest(w)), None))
+                def first_tree(w=w):
+                    try:
+                        return next(iter(grammar.parse_forest(w)), None)
+                    except Exception as e:          # noqa: BLE001  (a crash of the parser on a word of the language)
+                        return e
+
+                res, timed_out = with_budget(first_tree)
                 if timed_out:
                     stats["timeouts"] += 1
                     continue
-                if res is None:
+                if isinstance(res, Exception):
+                    violations.append((name, w, f"a word of the grammar's language makes parse raise {type(res).__name__}"))
+                elif res is None:
                     violations.append((name, w, "a word of the grammar's language is rejected by parse"))
         if len(samples) < 8 and inside:
             samples.append({"spec": name, "word": repr(inside[0])})
@@ -339,8 +363,15 @@ def replay(pid, name, word):
         if name in family.CONSTRAINED_SPECS:
             probs += check_api_filter(name, word, stats)
     else:
-        res, _ = with_budget(lambda: next(iter(grammar.parse_forest(word)), None))
-        probs = [] if res is not None else ["a word of the grammar's language / a generated word is rejected by parse"]
+        def first_tree():
+            try:
+                return next(iter(grammar.parse_forest(word)), None)
+            except Exception as e:          # noqa: BLE001
+                return e
+
+        res, _ = with_budget(first_tree)
+        probs = [] if (res is not None and not isinstance(res, Exception)) else [
+            "a word of the grammar's language / a generated word is rejected by parse" if res is None else f"parse raises {type(res).__name__} on a word of the language"]
     for p in probs:
         print("VIOLATION reproduced:", name, repr(word), p)
     print("spec:\n" + family.SPECS[name])
@@ -378,7 +409,7 @@ def run(tier="quick", seed=0, pid="C04"):
             continue            # one report per (spec, kind of failure)
         seen.add(key)
         oblig = f"bounded:{'parse_sound' if pid == 'C04' else 'roundtrip'}:{name}"
-        kind = ("validate_raises" if "validate()" in p else "language_word_rejected" if "language is rejected" in p
+        kind = ("validate_raises" if "validate()" in p else "parse_raises" if "makes parse raise" in p else "language_word_rejected" if "language is rejected" in p
                 else "generated_word_not_parsed_back" if "not parsed back" in p else "not_a_derivation" if "not a derivation" in p
                 else "serialisation_differs" if "differs from the input" in p else "constraint_violated" if "violating" in p
                 else "stale_after_update" if "Grammar.update" in p else "other")
